@@ -38,7 +38,7 @@ func TestConfGroup3(t *testing.T) {
   outp[1] = inp[0] + inp[1];
   outp[2].y = inp[0].z;
 }`,
-			in: map[uint32][]byte{0: f32s(1, 2, 3, -1, 4, 5, 6, -1), 1: fill(12, sent)},
+			in:   map[uint32][]byte{0: f32s(1, 2, 3, -1, 4, 5, 6, -1), 1: fill(12, sent)},
 			want: map[uint32][]any{1: {4.0, 5.0, 6.0, anyWord{}, 5.0, 7.0, 9.0, anyWord{}, sent, 3.0, sent, sent}},
 		},
 		{
@@ -121,7 +121,7 @@ fn tweak(w: W) -> W { var r = w; r.t.v.z = r.t.f; return r; }
   outp = tweak(w);
 }`,
 			// T size 32; arr @32; W size 48
-			in: map[uint32][]byte{0: cat(f32s(1, 2, 3, 4, 5, 6), i32s(7, 0, 2, 20, 30, 0)), 1: fill(12, sent)},
+			in:   map[uint32][]byte{0: cat(f32s(1, 2, 3, 4, 5, 6), i32s(7, 0, 2, 20, 30, 0)), 1: fill(12, sent)},
 			want: map[uint32][]any{1: {1.0, 2.0, 4.0, 4.0, 5.0, 6.0, 8, anyWord{}, 2, 20, 42, anyWord{}}},
 		},
 		{
@@ -470,6 +470,103 @@ fn sum(a: array<i32, 5>) -> i32 { var s = 0; for (var i = 0; i < 5; i++) { s += 
 			want: map[uint32][]any{1: {2, 10, 100, 192, 50}},
 		},
 		{
+			name:   "local_matCx2_dynamic_column_store",
+			defect: "SetMatVec<m>On<S>(S obj, ...) / SetMatScalar... take the struct by value (no inout): stores through them to a function-space struct with a matCx2 member are lost",
+			wgsl: `
+struct B { m: mat3x2<f32> }
+@group(0) @binding(2) var<uniform> u: B;
+@group(0) @binding(0) var<storage, read> idx: array<u32, 2>;
+@group(0) @binding(1) var<storage, read_write> outp: array<vec2<f32>, 3>;
+@compute @workgroup_size(1) fn main() {
+  var t = u;
+  t.m[idx[0]] = vec2<f32>(9.0, 8.0);
+  t.m[idx[1]][1] = 7.0;
+  outp[0] = t.m[0]; outp[1] = t.m[1]; outp[2] = t.m[2];
+}`,
+			in:   map[uint32][]byte{2: f32s(1, 2, 3, 4, 5, 6, 0, 0), 0: u32s(1, 2), 1: make([]byte, 24)},
+			want: map[uint32][]any{1: {1.0, 2.0, 9.0, 8.0, 5.0, 7.0}},
+		},
+		{
+			name:   "local_matCx2_whole_assign",
+			defect: "SetMat<m>On<S>(S obj, floatCx2 mat) takes the struct by value: assigning a whole matCx2 member of a function-space struct is lost",
+			wgsl: `
+struct B { m: mat2x2<f32> }
+@group(0) @binding(2) var<uniform> u: B;
+@group(0) @binding(1) var<storage, read_write> outp: array<vec2<f32>, 2>;
+@compute @workgroup_size(1) fn main() {
+  var t = u;
+  t.m = mat2x2<f32>(vec2<f32>(9.0, 8.0), vec2<f32>(7.0, 6.0));
+  outp[0] = t.m[0]; outp[1] = t.m[1];
+}`,
+			in:   map[uint32][]byte{2: f32s(1, 2, 3, 4), 1: make([]byte, 16)},
+			want: map[uint32][]any{1: {9.0, 8.0, 7.0, 6.0}},
+		},
+		{
+			name: "local_matCx2_static_column_store",
+			wgsl: `
+struct B { m: mat3x2<f32> }
+@group(0) @binding(2) var<uniform> u: B;
+@group(0) @binding(1) var<storage, read_write> outp: array<vec2<f32>, 3>;
+@compute @workgroup_size(1) fn main() {
+  var t = u;
+  t.m[1] = vec2<f32>(9.0, 8.0);
+  t.m[2][1] = 7.0;
+  outp[0] = t.m[0]; outp[1] = t.m[1]; outp[2] = t.m[2];
+}`,
+			in:   map[uint32][]byte{2: f32s(1, 2, 3, 4, 5, 6, 0, 0), 1: make([]byte, 24)},
+			want: map[uint32][]any{1: {1.0, 2.0, 9.0, 8.0, 5.0, 7.0}},
+		},
+		{
+			name: "struct_entry_param_and_barriers_4x2",
+			wgsl: `
+struct In { @builtin(local_invocation_index) li: u32, @builtin(local_invocation_id) lid: vec3<u32> }
+@group(0) @binding(1) var<storage, read_write> outp: array<u32, 8>;
+var<workgroup> wg: array<u32, 8>;
+@compute @workgroup_size(4, 2, 1) fn main(i: In, @builtin(global_invocation_id) gid: vec3<u32>) {
+  wg[i.li] = i.lid.x + 10u * i.lid.y;
+  workgroupBarrier();
+  let other = wg[7u - i.li];
+  workgroupBarrier();
+  wg[i.li] = other + 100u;
+  workgroupBarrier();
+  outp[gid.x + 4u * gid.y] = wg[(i.li + 4u) % 8u];
+}`,
+			in: map[uint32][]byte{1: make([]byte, 32)},
+			want: map[uint32][]any{1: {uint32(103), uint32(102), uint32(101), uint32(100), uint32(113), uint32(112), uint32(111),
+				uint32(110)}},
+		},
+		{
+			name: "toplevel_uniform_matrices",
+			wgsl: `
+@group(0) @binding(2) var<uniform> um: mat3x2<f32>;
+@group(0) @binding(3) var<uniform> un: mat2x4<f32>;
+@group(0) @binding(0) var<storage, read> idx: array<u32, 1>;
+@group(0) @binding(1) var<storage, read_write> outp: array<vec4<f32>, 3>;
+@compute @workgroup_size(1) fn main() {
+  let i = idx[0];
+  outp[0] = vec4<f32>(um[i], um[2].y, um[0][i]);
+  outp[1] = un[i];
+  outp[2] = vec4<f32>(um * vec3<f32>(1.0, 1.0, 1.0), (un * vec2<f32>(1.0, 2.0)).zw);
+}`,
+			in: map[uint32][]byte{2: f32s(1, 2, 3, 4, 5, 6, 0, 0), 3: f32s(10, 11, 12, 13, 20, 21, 22, 23), 0: u32s(1),
+				1: make([]byte, 48)},
+			want: map[uint32][]any{1: {3.0, 4.0, 6.0, 2.0, 20.0, 21.0, 22.0, 23.0, 9.0, 12.0, 56.0, 59.0}},
+		},
+		{
+			name: "vec_u32_div_mod_by_zero",
+			wgsl: `
+@group(0) @binding(0) var<storage, read> inp: array<vec2<u32>, 2>;
+@group(0) @binding(1) var<storage, read_write> outp: array<vec2<u32>, 4>;
+@compute @workgroup_size(1) fn main() {
+  outp[0] = inp[0] / inp[1];
+  outp[1] = inp[0] % inp[1];
+  outp[2] = inp[0] / 3u;
+  outp[3] = 100u % inp[0];
+}`,
+			in:   map[uint32][]byte{0: u32s(17, 9, 5, 0), 1: make([]byte, 32)},
+			want: map[uint32][]any{1: {uint32(3), uint32(9), uint32(2), uint32(0), uint32(5), uint32(3), uint32(15), uint32(1)}},
+		},
+		{
 			name: "struct_with_matrix_whole_copy_and_function_arg",
 			wgsl: `
 struct M { s: f32, m: mat3x2<f32>, n: mat2x4<f32> }
@@ -480,7 +577,7 @@ fn f(x: M) -> M { var r = x; r.m[2] = x.m[0] + x.m[1]; r.n[1][3] = x.s; return r
   outp = f(inp);
 }`,
 			// M: s @0, m @8 (3 columns stride 8 -> 24), n @32 (2 columns stride 16), size 64
-			in: map[uint32][]byte{0: f32s(0.5, -1, 1, 2, 3, 4, 5, 6, 10, 11, 12, 13, 14, 15, 16, 17), 1: fill(16, sent)},
+			in:   map[uint32][]byte{0: f32s(0.5, -1, 1, 2, 3, 4, 5, 6, 10, 11, 12, 13, 14, 15, 16, 17), 1: fill(16, sent)},
 			want: map[uint32][]any{1: {0.5, anyWord{}, 1.0, 2.0, 3.0, 4.0, 4.0, 6.0, 10.0, 11.0, 12.0, 13.0, 14.0, 15.0, 16.0, 0.5}},
 		},
 	}
